@@ -159,6 +159,26 @@ pub fn run(rest: &str) -> String {
                 Err(_) => "HARNESS-SPAWN-FAILED".into(),
             }
         }
+        "flat" => {
+            // a FLAT (un-nested) run of one byte after a prefix, decoded in a child process on a fixed stack:
+            // flat <prefix hex or -> <byte hex> <count> <stack KiB>.  Stack use must not grow with the length of a flat input.
+            let prefix = t.next().to_string();
+            let byte = t.next().to_string();
+            let count = t.next().to_string();
+            let stack = t.next().to_string();
+            let exe = std::env::current_exe().unwrap();
+            match std::process::Command::new(exe).arg("--child-flat").arg(&prefix).arg(&byte).arg(&count).arg(&stack).output() {
+                Ok(o) => {
+                    let out = String::from_utf8_lossy(&o.stdout).trim().to_string();
+                    match o.status.code() {
+                        Some(0) => format!("exit=0 {}", out),
+                        Some(c) => format!("exit={}", c),
+                        None => "killed-by-signal".to_string(),
+                    }
+                }
+                Err(_) => "HARNESS-SPAWN-FAILED".into(),
+            }
+        }
         "dect" => {
             let k = t.u64() as usize;
             let bytes = t.bytes();
@@ -194,6 +214,23 @@ pub fn child_deep(depth: usize, stack_kib: usize) {
                 std::process::exit(0);
             }
             Err(e) => println!("Err {}", de_err(&e)),
+        }
+    }).unwrap();
+    let _ = h.join();
+}
+
+/// child mode: decode `prefix` followed by `count` copies of one byte on a thread with `stack_kib` KiB of stack
+pub fn child_flat(prefix_hex: &str, byte_hex: &str, count: usize, stack_kib: usize) {
+    let mut bytes: Vec<u8> = if prefix_hex == "-" { vec![] } else {
+        (0..prefix_hex.len() / 2).map(|i| u8::from_str_radix(&prefix_hex[2 * i..2 * i + 2], 16).unwrap()).collect()
+    };
+    let b = u8::from_str_radix(byte_hex, 16).unwrap();
+    bytes.extend(std::iter::repeat(b).take(count));
+    let h = std::thread::Builder::new().stack_size(stack_kib * 1024).spawn(move || {
+        let mut c = Cursor::new(bytes);
+        match rml_amf0::deserialize(&mut c) {
+            Ok(v) => { println!("Ok n={}", v.len()); std::mem::forget(v); std::process::exit(0); }
+            Err(_) => println!("Err"),
         }
     }).unwrap();
     let _ = h.join();
